@@ -138,8 +138,10 @@ def reference_verdict(spec0, target, steps):
     try:
         for label, mj in steps:
             cur = ML.apply(cur, label, mj)
-    except ML.Disabled:
-        return 'disabled'
+    except ML.Disabled as e:
+        # 'invalid:<reason>' for the invalidities the property lists;
+        # plain 'disabled' for restrictions of the harness's own language
+        return 'invalid:' + e.invalid if e.invalid else 'disabled'
     except Exception:
         return 'disabled'
     return 'equivalent' if S.canon_unordered(cur) == \
@@ -220,13 +222,19 @@ def run_case(spec0, target, steps, op, pos, pert, stats, add):
                  'stdout': res.stdout[-300:]})
         elif not effects and post == pre:
             stats['noop_accepted'] = stats.get('noop_accepted', 0) + 1
+        elif verdict == 'disabled':
+            # refused by the reference language for a reason of its own
+            # (not an invalidity the property names): no verdict
+            stats['accepted_reference_restriction'] = stats.get(
+                'accepted_reference_restriction', 0) + 1
         else:
             # the evolution names a missing model/field, adds an existing
             # field, deletes a primary key or drops a needed initial value
             # (the reference model refuses it) - and was executed
             stats['accepted_undetermined'] += 1
-            add('C12|reference-invalid-evolution-executed|%s|%s' % (
-                shape, same_field_context(pert, pos)), replay, {'statements': [q for q, _p in effects][:5],
+            add('C12|reference-invalid-evolution-executed|%s|%s|%s' % (
+                verdict.split(':', 1)[1], shape,
+                same_field_context(pert, pos)), replay, {'statements': [q for q, _p in effects][:5],
                          'stdout': res.stdout[-300:]})
         return
     stats['rejected'] += 1
